@@ -1608,9 +1608,27 @@ def c11_families(tier, seed, ids=None):
             items = build + [assign("b", bin_("+", N("s"), unit("X"))), assign("c", bin_("+", N("s"), unit("Y"))), ix1(N("b"), I(k + 1)), ix1(N("c"), I(k + 1)), bin_("==", N("b"), N("c")),
                              bin_("==", N("b"), bin_("+", N("s"), unit("X"))), bin_("!=", N("b"), bin_("+", N("s"), unit("Y"))), un("#", N("b")), ix2(N("b"), I(0), bin_("+", I(k), I(2))), lst([N("b"), N("c"), N("s")])]
             fo.append(mk(ids, items, {"fork": [strs, k]}))
+    # grouping: an operator whose operand is itself an operator expression, in every nesting position, over operand kinds for which the
+    # order of the operands matters (strings, arrays, subtraction, division, shifts); operands as literals and through globals / parameters
+    gr = []
+    triples = {"strings": (St("ab"), St("cd"), St("ef"), St("!")), "arrays": (lst([I(1)]), lst([I(2), I(3)]), lst([St("x")]), lst([I(4)])), "ints": (I(7), I(3), I(2), I(5)),
+               "floats": (Fl(7, 0), Fl(3, 1), I(2), Fl(1, 2)), "mixed": (St("ab"), I(3), lst([I(1)]), St("z"))}
+    for op in ALL_BINOPS:
+        for tname, (ea, eb, ec, ed) in triples.items():
+            if tier == "quick" and op not in ("+", "-") and shash((op, tname, seed)) % 3 != 0:
+                continue
+            pre = [assign("ga", ea), assign("gb", eb), assign("gc", ec), assign("gd", ed)]
+            A, B, Cc, D = N("ga"), N("gb"), N("gc"), N("gd")
+            def shapes(a, b, c, d):
+                r = bin_(op, b, c)
+                return [bin_(op, a, r), bin_(op, bin_(op, a, b), c), bin_(op, bin_(op, a, r), d), bin_(op, d, bin_(op, a, r)), bin_("==", bin_(op, a, r), bin_(op, bin_(op, a, b), c)),
+                        lst([bin_(op, bin_(op, a, r), d)]), bin_(op, bin_(op, a, un("-", c) if tname in ("ints", "floats") else r), d), bin_(op, bin_(op, r, a), d)]
+            items = pre + shapes(ea, eb, ec, ed) + shapes(A, B, Cc, D) + [assign("h", fn(["p", "q", "r", "w"], block(shapes(N("p"), N("q"), N("r"), N("w"))[2:4] + [lst(shapes(N("p"), N("q"), N("r"), N("w"))[:4])]))), call("h", A, B, Cc, D), I(1)]
+            gr.append(mk(ids, items, {"grouping": op, "kinds": tname}))
     return [("binary operators over special values as the compiler builds them: bare, negated, via globals, via parameters", ss, ("value",)),
             ("unary operators, nested", us, ("value",)), ("index and slice bounds over values however produced", ix, ("value",)),
-            ("operators on the results of two extensions of one grown value", fo, ("value",))]
+            ("operators on the results of two extensions of one grown value", fo, ("value",)),
+            ("operators whose operands are operator expressions, every grouping and nesting position", gr, ("value",))]
 
 
 c11_rule = ("17 binary operators x 18x18 operands (ints, exact floats, signed zero, NaN, +-Inf, booleans, strings, arrays (one holding NaN), nil, a function) each written bare, "
